@@ -16,7 +16,7 @@ namespace Tunnox.C07
 /-- connections opened / closed-after-open by the history, syntactically -/
 def synStep (n : Nat) (acc : (Nat → Bool) × (Nat → Bool)) (op : Op) : (Nat → Bool) × (Nat → Bool) :=
   match op with
-  | .accept c => if c < n then (upd acc.1 c true, acc.2) else acc
+  | .accept c => if c < n then (upd acc.1 c true, upd acc.2 c false) else acc   -- a new incarnation is not "closed"
   | .close c => if c < n ∧ acc.1 c = true then (acc.1, upd acc.2 c true) else acc
   | _ => acc
 
